@@ -375,7 +375,7 @@ func c13r2(r *R) {
 	} {
 		o2.Check(hasGuard(gs, w), "a handler can be scheduled without the check %s having passed; guards %v", w, gs)
 	}
-	o2.Check(hasGuardContaining(gs, "-", "newWriterAndRequest("), "a handler can be scheduled although building the request failed; guards %v", gs)
+	o2.Check(guardOkOn(gs, "newWriterAndRequest("), "a handler can be scheduled although building the request failed; guards %v", gs)
 	// arguments: the stream id of this frame, the writer/request just built, the selected handler
 	a := callOf(sh[0]).Args
 	o2.Check(c.Expr(a[1]) == id, "scheduleHandler gets stream id %s", c.Expr(a[1]))
@@ -389,9 +389,9 @@ func c13r2(r *R) {
 			case es == "func:http2.handleHeaderListTooLong":
 				o2.Check(hasGuard(pg, "+p1.Truncated"), "431 handler chosen under %v", pg)
 			case strings.HasPrefix(es, "http2.new400Handler("):
-				o2.Check(hasGuardContaining(pg, "+", "http2.checkValidHTTP2RequestHeaders(") && hasGuard(pg, "-p1.Truncated"), "400 handler chosen under %v", pg)
+				o2.Check(guardErrOn(pg, "http2.checkValidHTTP2RequestHeaders(") && hasGuard(pg, "-p1.Truncated"), "400 handler chosen under %v", pg)
 			case es == "closure:(net/http.Handler).ServeHTTP" || strings.Contains(es, "ServeHTTP"):
-				o2.Check(hasGuard(pg, "-p1.Truncated") && hasGuardContaining(pg, "-", "http2.checkValidHTTP2RequestHeaders("), "the user's handler is chosen although the header list was truncated or invalid; edge guards %v", pg)
+				o2.Check(hasGuard(pg, "-p1.Truncated") && guardOkOn(pg, "http2.checkValidHTTP2RequestHeaders("), "the user's handler is chosen although the header list was truncated or invalid; edge guards %v", pg)
 			default:
 				o2.Fail("unexpected handler candidate %s", es)
 			}
@@ -496,7 +496,7 @@ func c13r4(r *R) {
 				o.Check(code == "assert[http2.ConnectionError]("+errV+")#0", "a ConnectionError is answered with GOAWAY code %s, want the error's own code", code)
 			case hasGuard(gs, fe):
 				o.Check(code == "3", "goAwayFlowError is answered with GOAWAY code %s, want FLOW_CONTROL_ERROR", code)
-			case hasGuardContaining(gs, "+", "http2.ErrFrameTooLarge"):
+			case hasGuardContaining(gs, "+", " == http2.ErrFrameTooLarge)") || hasGuardContaining(gs, "+", "(http2.ErrFrameTooLarge == "):
 				o.Check(code == "6", "an oversized frame is answered with GOAWAY code %s, want FRAME_SIZE_ERROR", code)
 			default:
 				o.Fail("goAway(%s) under %v", code, gs)
@@ -519,7 +519,7 @@ func c13r4(r *R) {
 	o2 := r.Ob("C13.R4", "goaway-frame-fields:"+funcName(sw)).At(sw.Pos())
 	found := false
 	eachInstr(sw, func(i ssa.Instruction) {
-		if al, ok := i.(*ssa.Alloc); ok && strings.HasSuffix(typeName(al.Type()), "http2.writeGoAway") {
+		if al, ok := i.(*ssa.Alloc); ok && allocOfStruct(al, "http2.writeGoAway") {
 			found = true
 			f := complitFields(al)
 			o2.AtI(i).Check(f["maxStreamID"] != nil && c.Expr(f["maxStreamID"]) == "p0.maxClientStreamID" && f["code"] != nil && c.Expr(f["code"]) == "p0.goAwayCode", "GOAWAY carries (last-stream-id %s, code %s), want (sc.maxClientStreamID, sc.goAwayCode)", exprOrNil(c, f["maxStreamID"]), exprOrNil(c, f["code"]))
@@ -588,9 +588,9 @@ func edgeGuards(c *Ctx, pred, succ *ssa.BasicBlock) []string {
 	if len(pred.Instrs) > 0 {
 		if iff, ok := pred.Instrs[len(pred.Instrs)-1].(*ssa.If); ok && pred.Succs[0] != pred.Succs[1] {
 			if pred.Succs[0] == succ {
-				out = append(out, "+"+c.Expr(iff.Cond))
+				out = append(out, canonGuard(true, c.Expr(iff.Cond)))
 			} else if pred.Succs[1] == succ {
-				out = append(out, "-"+c.Expr(iff.Cond))
+				out = append(out, canonGuard(false, c.Expr(iff.Cond)))
 			}
 		}
 	}
